@@ -372,13 +372,21 @@ FLAGS["ccTracksAlways"] = not re.search(r"if\s+!self\.found_mutable\s*\{\s*retur
 CC_SETS_FOUND = sorted(v for v in VARIANTS if DISPATCH.get(v) in cc_ms and "self.found_mutable = true" in cc_ms[DISPATCH[v]])
 FLAGS["hashIterative"] = hash_has_stack
 FLAGS["hashCycleSafe"] = bool(re.search(r"visited|seen|in_progress", hash_fn))
-FLAGS["printNoReentry"] = not any(op == "print" and t == "recUnbounded" for op, _, t, _ in table)
+def _row(op, v):
+    for o, vv, t, _ in table:
+        if o == op and vv == v:
+            return t
+    return "missing"
+
+
+FLAGS["printBoxNoReentry"] = all(_row("print", v) != "recUnbounded" for v in ("Boxed", "HeapAllocated"))
+FLAGS["printMapNoReentry"] = all(_row("print", v) != "recUnbounded" for v in ("HashMapV", "HashSetV"))
 
 # ---- drop ----------------------------------------------------------------------------------------------------------
 drop_mod = find_block(cycles, r"\bpub\(crate\)\s+mod\s+drop_impls\s*\{", "mod drop_impls")
-DROP_IMPLS = sorted(set(re.findall(r"\bimpl\s+Drop\s+for\s+(\w+)", drop_mod)))
+DROP_IMPLS = sorted(set(m.group(2) for m in re.finditer(r"\bimpl\s+Drop\s+for\s+((?:\w+::)*)(\w+)", drop_mod)))
 for t in DROP_IMPLS:
-    b = find_block(drop_mod, r"\bimpl\s+Drop\s+for\s+%s\s*\{" % t, "Drop for " + t)
+    b = find_block(drop_mod, r"\bimpl\s+Drop\s+for\s+(?:\w+::)*%s\s*\{" % t, "Drop for " + t)
     if "IterativeDropHandler::bfs" not in b:
         die("Drop for %s does not start the worklist" % t)
 list_handler = "IterativeDropHandler::bfs" in lists and re.search(r"type\s+DropHandlerChoice\s*=\s*list_drop_handler::ListDropHandler", lists)
@@ -394,7 +402,8 @@ for v in VARIANTS:
         T("drop", v, "iterative", "impl Drop starts the worklist")
     else:
         T("drop", v, "recUnbounded", "no impl Drop: recursive drop glue")
-FLAGS["dropAllIterative"] = not any(op == "drop" and t == "recUnbounded" for op, _, t, _ in table)
+FLAGS["dropPairSetIterative"] = all(_row("drop", v) != "recUnbounded" for v in ("Pair", "HashSetV"))
+FLAGS["dropClosureBoxIterative"] = all(_row("drop", v) != "recUnbounded" for v in ("Closure", "Boxed"))
 
 # ---- send ----------------------------------------------------------------------------------------------------------
 send_fn = fn_body(threads, "channel_send")
@@ -455,7 +464,8 @@ lines.append("def eqCheckedVariants : List String := [" + ", ".join('"%s"' % d f
 lines.append("def ccSetsFoundVariants : List String := [" + ", ".join('"%s"' % d for d in CC_SETS_FOUND) + "]")
 lines.append("def mark2Recursive : List String := [" + ", ".join('"%s"' % d for d in MARK2_REC) + "]")
 for k in ["eqBoxVisited", "eqMixVecVisited", "eqKeysIterative", "markSboxVisited", "markImmVisited", "ccSboxMutable",
-          "ccTracksAlways", "hashIterative", "hashCycleSafe", "printNoReentry", "dropAllIterative"]:
+          "ccTracksAlways", "hashIterative", "hashCycleSafe", "printBoxNoReentry", "printMapNoReentry", "dropPairSetIterative",
+          "dropClosureBoxIterative"]:
     lines.append("def %s : Bool := %s" % (k, "true" if FLAGS[k] else "false"))
 lines += ["", "end SteelVerif.C18.Gen", ""]
 text = "\n".join(lines)
